@@ -98,13 +98,28 @@ def unit_level(chk: core.Check, ext):
                 if target is None:
                     continue
                 decl_cur = p.CurrentUnits.value if hasattr(p.CurrentUnits, 'value') else str(p.CurrentUnits)
+                literal_probes = []
                 for u in type(pref):
+                    if u == pref or u.value == '':
+                        continue
+                    # numbers WRITTEN as zero or as a negative number in another unit (0 degF, -4 degF, -500 KUSD): converted like any other
+                    for lit in (0.0, -4.0, -500.0):
+                        try:
+                            back = float(ureg.Quantity(lit, convertible_unit(u.value)).to(convertible_unit(pref.value)).magnitude)
+                        except Exception:
+                            continue
+                        if math.isfinite(back) and float(p.Min) * (1 + 1e-6) < back < float(p.Max) * (1 - 1e-6) and back != p.DefaultValue and back != p.value and (back != lit or lit == 0.0 and back != 0.0):
+                            literal_probes.append((u, lit))
+                            break
+                for u, x_forced in [(u, None) for u in type(pref)] + literal_probes:
                     # the number the user writes: the equivalent of `target` in unit u (pint, approximate — the exact number written is what both sides get)
                     try:
                         x = float(ureg.Quantity(target, convertible_unit(pref.value)).to(convertible_unit(u.value)).magnitude)
                         x = float(f'{x:.9g}')
                     except Exception:
                         x = target
+                    if x_forced is not None:
+                        x = x_forced
                     if not math.isfinite(x):
                         continue
                     q = copy.deepcopy(p)
@@ -508,6 +523,26 @@ def output_directive(chk: core.Check, ext, per_family):
     chk.coverage['output_directive_pairs'] = len(meta)
 
 
+def client_session(chk: core.Check):
+    """one default (caching) client asked, in turn, for files that differ only in the unit written after one number: each answer must be the one a fresh
+    run of that file gives"""
+    from .c12 import _cached_sequence
+    base = geo.base_params(2, 1, 1, L=8, n=1)
+    seqs = []
+    for name, variants in (('Reservoir Depth', ['3', '3 mile', '3 kilometer', '3000 meter']), ('Injection Temperature', ['60', '60 degC', '140 degF', '60 degF']),
+                           ('Production Well Diameter', ['8', '8 in', '0.2 meter'])):
+        texts = [geo.params_to_text({**base, name: v}) for v in variants]
+        seqs.append((name, variants, texts))
+    res = geo.pmap(_cached_sequence, [t for _, _, t in seqs], chk.scratch)
+    for (name, variants, texts), rows in zip(seqs, res):
+        for i, row in enumerate(rows):
+            chk.case(('session', name, variants[i]), True)
+            chk.tag('session/' + ('agree' if row.get('cached') == row.get('fresh') else 'differ'))
+            if row.get('cached') != row.get('fresh'):
+                chk.fail(f'C06/session/unit-text-ignored/{name}', f'a client session asked for "{name}, {variants[i]}" after "{name}, {variants[i - 1] if i else ""}" returns a result that a fresh run of that '
+                         'file does not give: the unit written after the number was not taken into account', {'parameter': name, 'requests_in_order': variants[:i + 1], 'digests': rows})
+
+
 def run(chk: core.Check) -> int:
     from tools import extract
     ext = extract.main(['Units'])
@@ -517,6 +552,7 @@ def run(chk: core.Check) -> int:
     quick = chk.tier == 'quick'
     unit_level(chk, ext)
     whole_run_pairs(chk, ext, 6 if quick else 80)
+    client_session(chk)
     output_directive(chk, ext, 100000)   # complete: every output x convertible catalogue unit x family (about 1500 runs)
     chk.assumptions += ['"dimensionally convertible" = the unit text is a product of atoms the SI model defines and has the dimension of the class\'s first member; the excluded '
                         'members are listed in Properties/C06.notConvertible (other currencies, angles, texts pint reads as something else such as "mt")',
